@@ -26,6 +26,10 @@ CHECKS = {
             "Exploration: derivatives obtained through four code paths (flat, deep, converted both ways) and a second time for order 2 are evaluated at random points and compared with dual-number derivatives of the reference tree: equality over exact rationals, 1e-9 relative (plus 1e-10 of the largest intermediate magnitude) over f64 at guarded, well-conditioned interior points. Every derivative rule must have been exercised or the run is inconclusive; operators without a rule over a variable must give Err.",
             "Trusted: the dual-number rules in num.rs (the mathematical derivative table written independently); guards discard ~40 % of sampled points.",
             "DESIGN.md 3/C05"),
+    "C06": ("runtime monitor: all entry points and follow-up operations under catch_unwind over exhaustive short strings, token soup, mutated corpus, long/deep texts on an 8 MiB stack with in-flight witness files, hang monitor",
+            "Exploration with an exhaustive sub-space (all strings of <=4/6 tokens over a 14-symbol alphabet): every text goes through ten parsing entry points and, when accepted, through evaluation, conversion, printing, listings, serde, operator application, substitution and differentiation. Panics are caught and attributed to their source location; aborts (stack overflow) kill the process, which ./check reports as a crash with the in-flight text; a hang monitor reports a text that keeps a worker busy for minutes.",
+            "Trusted: catch_unwind; differentiation only for texts <= 80 tokens / nesting <= 20 (the property excludes deeper recursion of the deep form).",
+            "DESIGN.md 3/C06"),
     "C07": ("runtime monitor: exhaustive single-point damage of rendered well-formed texts, all parser entry points must return Err",
             "Fault-style exploration: for every generated well-formed text ALL single-point damages of the listed kinds are applied (each parenthesis deleted; '(' , ')' and an illegal character inserted at every character position outside braces; every binary operator appended; an extra operand placed left and right of every primary operand token) and every parser entry point (term-algebra tables, shipped float table, shipped value table) must reject. ~10^6 damaged variants in the quick tier.",
             "Trusted: the renderer produces well-formed texts (originals rejected by all parsers are skipped and counted); the illegal-character set is disjoint from every table in use; tab/newline are not treated as illegal.",
@@ -78,6 +82,10 @@ CHECKS = {
             "Fault-style enumeration + exploration: all 36 operators and 6 constants of the default table for f32 and f64; every ordered pair of 37 special values per binary operator (pins argument order, NaN/inf/signed-zero behaviour), random values across magnitudes and raw bit patterns; via function pointers, FlatEx, DeepEx (infix, call, juxtaposed) and eval_str literals. Agreement = identical bits, both NaN, or <= 4 ulp in the same class.",
             "Trusted: the independent name->primitive table in c19.rs; the zero sign of min/max is unspecified in Rust and exempt.",
             "DESIGN.md 3/C19"),
+    "C20": ("sanitizers + runtime monitor: thread workload in fresh processes compared with a sequential run; ThreadSanitizer (-Zbuild-std); Miri with several scheduler seeds; compile-time Send+Sync assertion crate",
+            "Exploration of schedules: N fresh processes x 16 threads racing the first-use initialisation and evaluating shared expressions, results bit-identical to a sequential run and identical across processes; the same workload under ThreadSanitizer and under Miri (data races, UB). Arrival orders at the initialisation race are recorded and counted (interleavings actually seen).",
+            "Trusted: TSan/Miri as race oracles on the executions produced; rustc for the Send/Sync fact. Value comparisons are not judged under Miri (it randomises float intrinsics and fn-pointer addresses).",
+            "DESIGN.md 3/C20"),
 }
 
 PENDING = "monitor designed in DESIGN.md section 3 but not built/validated yet in this tree; not claimed until it is silent on the unchanged tree and catches seeded breaks"
@@ -104,7 +112,7 @@ def main():
         })
     manifest = {
         "version": 1,
-        "setup_cmd": "cd /verif/harness && CARGO_NET_OFFLINE=true cargo build --release --offline && CARGO_NET_OFFLINE=true cargo build --profile checked --offline",
+        "setup_cmd": "cd /verif/harness && CARGO_NET_OFFLINE=true cargo build --release --offline && CARGO_NET_OFFLINE=true cargo build --profile checked --offline && /verif/tools/pre_C20.sh quick",
         "hooks": {
             "guard": "cargo feature `verif` of exmex (off by default)",
             "enable": "the harness depends on exmex by path=/repo with features partial,value,serde,verif; every ./check rebuilds it from /repo's working tree",
@@ -113,6 +121,7 @@ def main():
             "add_only": True,
         },
         "engines": [
+            {"name": "c20w", "path": "/verif/c20w", "serves_properties": ["C20"], "kind_free_text": "thread workload binary run natively, under ThreadSanitizer and under Miri; /verif/sendsync is the compile-time Send+Sync assertion"},
             {"name": "vharness", "path": "/verif/harness", "serves_properties": sorted(CHECKS),
              "kind_free_text": "Rust crate with instrumented data types, generators, reference models and one monitor per property (bin vmon); runs the real exmex code from /repo"},
         ],
